@@ -62,13 +62,18 @@ package gcpkms
 //@   ghostparam j Int
 //@   ensures[C20] err == nil ==> result0 != nil && (result0.State == 1 || result0.State == 5)
 //@   ensures[C20] err == nil && 0 <= j && j < kmsCount(parent) && kmsState[j] == 1 ==> result0.State == 1
+// (completeness: when the key has an enabled or pending version, the lookup fails only if a listing call failed - an
+// empty or short page in the middle of the listing is not "no versions")
+//@   ensures[C20] err != nil && 0 <= j && j < kmsCount(parent) && (kmsState[j] == 1 || kmsState[j] == 5) ==> lastVerListErr != nil
 //@   loop 1 invariant 0 <= tokPos(pageToken) && tokPos(pageToken) <= kmsCount(parent) && (version != nil ==> version.State == 5)
 //@   loop 1 invariant kmsListed >= old(kmsListed) && (kmsListed > old(kmsListed) ==> tokPos(pageToken) < kmsCount(parent))
 //@   loop 1 invariant[C20] 0 <= j && j < tokPos(pageToken) ==> kmsState[j] != 1
+//@   loop 1 invariant[C20] version == nil && 0 <= j && j < tokPos(pageToken) ==> kmsState[j] != 5
 //@   loop 1 invariant 0 <= pageNo(pageToken) && (kmsListed > old(kmsListed) ==> pageNo(pageToken) <= kmsPages(parent))
 //@   loop 1 decreases[C20] ite(kmsListed == old(kmsListed), kmsPages(parent) + 1 + ite(kmsPages(parent) < 0, 0 - kmsPages(parent), 0), kmsPages(parent) - pageNo(pageToken))
 //@   loop 2 invariant vers != nil && (version != nil ==> version.State == 5) && forall(i, 0 <= i && i < len(vers.CryptoKeyVersions) ==> vers.CryptoKeyVersions[i] != nil && vers.CryptoKeyVersions[i].State == kmsState[tokPos(pageToken) + i])
 //@   loop 2 invariant[C20] 0 <= j && j < tokPos(pageToken) + rangeindex + 1 ==> kmsState[j] != 1
+//@   loop 2 invariant[C20] version == nil && 0 <= j && j < tokPos(pageToken) + rangeindex + 1 ==> kmsState[j] != 5
 
 //@ func (*Manager).waitForKeyVersionGen
 //@   requires m != nil && m.KeyClient != nil && ctx != nil
